@@ -1,4 +1,5 @@
 open BinInt
+open BinNat
 open BinNums
 open Common
 open Datatypes
@@ -133,6 +134,46 @@ let rec partition_point p = function
 let poison_of c d =
   { d_kind = (KPoison c); d_payload = d.d_payload; d_body = None; d_flags =
     no_flags }
+
+(** val path_eqb : coq_N list -> coq_N list -> bool **)
+
+let rec path_eqb a b =
+  match a with
+  | [] -> (match b with
+           | [] -> true
+           | _ :: _ -> false)
+  | x :: a' ->
+    (match b with
+     | [] -> false
+     | y :: b' -> (&&) (N.eqb x y) (path_eqb a' b'))
+
+(** val position_of : coq_N list -> coq_N list list -> nat option **)
+
+let rec position_of p = function
+| [] -> None
+| k :: r ->
+  if path_eqb k p
+  then Some O
+  else (match position_of p r with
+        | Some i -> Some (S i)
+        | None -> None)
+
+(** val parent_of : coq_N list -> coq_N list option **)
+
+let parent_of p = match p with
+| [] -> None
+| _ :: _ -> Some (removelast p)
+
+(** val get_key_offset :
+    coq_N list -> coq_N list list -> coq_N list -> nat option **)
+
+let get_key_offset file keys includer =
+  match position_of file keys with
+  | Some i -> Some i
+  | None ->
+    (match parent_of includer with
+     | Some dir -> position_of (app dir file) keys
+     | None -> None)
 
 (** val pair_eqb : (nat * nat) -> (nat * nat) -> bool **)
 
